@@ -588,9 +588,9 @@ class ZipFileSystem(FileSystem[ZipInfo]):
     def walk_folder(self, folder: str = '') -> Iterator[File[Self]]:
         """Yield files in a folder."""
         # \\ is not allowed in zips.
-        folder = folder.replace('\\', '/').casefold()
+        folder = folder.replace('\\', '/').casefold().rstrip('/')
         for filename, fileinfo in self._name_to_info.items():
-            if filename.startswith(folder):
+            if not folder or filename.startswith(folder + '/'):
                 yield File(self, fileinfo.filename, fileinfo)
 
     def open_bin(self, name: Union[str, File[Self]]) -> BinaryIO:
